@@ -171,6 +171,15 @@ func (o optimizer[V]) Optimize(ast parser2.AST) parser2.AST {
 	// evaluate const method calls like c.conj()
 	if mc, ok := ast.(*parser2.MethodCall); ok {
 		if con, ok := mc.Value.(*parser2.Const[V]); ok {
+			// A field which stores a closure hides the method of the same name,
+			// as it does if the call is evaluated at run time.
+			if o.g.mapHandler != nil && o.g.mapHandler.IsMap(con.Value) {
+				if va, err := o.g.mapHandler.AccessMap(con.Value, mc.Name); err == nil {
+					if _, ok := o.g.ExtractFunction(va); ok {
+						return ast
+					}
+				}
+			}
 			if c, ok := o.allConst(mc.Args); ok {
 				if o.g.methodHandler != nil {
 					fu, err := o.g.methodHandler.GetMethod(con.Value, mc.Name)
